@@ -198,6 +198,14 @@ def do_check(pid, tier):
     workdir = os.path.join(VERIF, "work", "%s-%s-%d" % (pid, tier, os.getpid()))
     shutil.rmtree(workdir, ignore_errors=True)
     os.makedirs(workdir)
+    # scratch directories kept for inspection after an alarm are dropped after two hours
+    for d in os.listdir(os.path.join(VERIF, "work")):
+        pth = os.path.join(VERIF, "work", d)
+        try:
+            if pth != workdir and time.time() - os.path.getmtime(pth) > 7200:
+                shutil.rmtree(pth, ignore_errors=True)
+        except OSError:
+            pass
     known = load_known()
     os.makedirs(os.path.join(VERIF, "evidence"), exist_ok=True)
     os.makedirs(os.path.join(VERIF, "replays", pid), exist_ok=True)
